@@ -453,7 +453,12 @@ class Component(CaselessDict):
                 else:
                     stack[-1].add_component(component)
                 if vals.upper() == 'VTIMEZONE' and 'TZID' in component:
-                    tzp.cache_timezone_component(component)
+                    try:
+                        tzp.cache_timezone_component(component)
+                    except ValueError:
+                        raise
+                    except Exception as e:
+                        raise ValueError(f'Invalid VTIMEZONE {component["TZID"]!r}: {e!r}') from e
             # we are adding properties to the current top of the stack
             else:
                 factory = types_factory.for_property(name)
